@@ -215,22 +215,43 @@ def run(ctx: Ctx) -> None:
     else:
         rep.bad("C14.R4", ext.qname, "an external object carries its resolved path and nothing else", ext.module.relpath, [f"fields: {fields}"], "ext-fields",
                 what="external objects carry a value that can leak into signatures")
-    # the variable visitor gives external objects no signature
-    vis = prog.classes.get("dds.introspect.ExternalVarsVisitor")
-    if vis is not None and "visit_Name" in vis.methods:
-        m = vis.methods["visit_Name"]
-        ok = False
-        for n in m.own_nodes():
-            if isinstance(n, ast.If) and "ExternalObject" in unparse(n.test):
-                for c in ast.walk(ast.Module(body=n.body, type_ignores=[])):
-                    if isinstance(c, ast.Call) and unparse(c.func).endswith("ExternalDep"):
-                        sig = [k.value for k in c.keywords if k.arg == "sig"]
-                        ok = bool(sig) and isinstance(sig[0], ast.Constant) and sig[0].value is None
-        if ok:
-            rep.ok("C14.R4", m.qname, "an external variable enters the signature by name only (sig=None)", m.loc())
-        else:
-            rep.bad("C14.R4", m.qname, "an external variable enters the signature by name only (sig=None)", m.loc(), ["ExternalDep for an ExternalObject is not built with sig=None"],
-                    "ext-sig", what="the value of a variable from a non-accepted module is hashed into signatures")
+    # wherever a dependency record is built: a value signature is never given on a path where the resolver's answer
+    # was found to be an ExternalObject, and such a path does build a name-only record
+    n_name_only = 0
+    for m in prog.funcs.values():
+        if m.module.name != "dds.introspect":
+            continue
+        cons = [n for n in m.own_nodes() if isinstance(n, ast.Call) and unparse(n.func).split(".")[-1] == "ExternalDep"]
+        if not cons:
+            continue
+        cfg = cfg_of(m)
+        tb = [x for x in cfg.nodes if x.kind == "branch" and x.label == "T" and isinstance(x.ast, ast.Call) and unparse(x.ast.func) == "isinstance"
+              and len(x.ast.args) == 2 and unparse(x.ast.args[1]).split(".")[-1] == "ExternalObject"]
+        for c in cons:
+            sig = [k.value for k in c.keywords if k.arg == "sig"] or (list(c.args[2:3]))
+            name_only = bool(sig) and isinstance(sig[0], ast.Constant) and sig[0].value is None
+            if name_only:
+                if tb and dominated(ctx, m, c, tb) is None:
+                    n_name_only += 1
+                    rep.ok("C14.R4", m.qname, "an external variable enters the signature by name only (sig=None)", m.loc(c))
+                continue
+            reach = None
+            for t in tb:
+                for cn in cfg.nodes_of(c):
+                    p_ = cfg.find_path([t], [cn])
+                    if p_ is not None:
+                        reach = p_
+            if reach is not None:
+                from .common import witness_path
+                rep.bad("C14.R4", m.qname, "an external variable enters the signature by name only (sig=None)", m.loc(c),
+                        ["a dependency record with a value signature is built after the object was found to be external:"] + witness_path(cfg, m, reach),
+                        "ext-sig", what="the value of a variable from a non-accepted module is hashed into signatures")
+    if n_name_only == 0:
+        vis = prog.classes.get("dds.introspect.ExternalVarsVisitor")
+        where = vis.methods["visit_Name"] if vis is not None and "visit_Name" in vis.methods else None
+        rep.bad("C14.R4", where.qname if where else "dds.introspect", "an external variable enters the signature by name only (sig=None)",
+                where.loc() if where else "dds/introspect.py", ["no ExternalDep(sig=None) is built under `isinstance(.., ExternalObject)`"],
+                "ext-sig", what="the value of a variable from a non-accepted module is hashed into signatures")
 
     # ---- R5 -------------------------------------------------------------------------------
     n5 = 0
